@@ -43,7 +43,7 @@ LABELS = ("ev_k", "ev_n", "lot_k", "lot_n")
 
 
 def budget(tier: str) -> Dict[str, Any]:
-    return {"shards": 16, "examples": 800 if tier == "quick" else 10000, "examples2": 6 if tier == "quick" else 120}
+    return {"shards": 16, "examples": 800 if tier == "quick" else 10000, "examples2": 10 if tier == "quick" else 150}
 
 
 E2E_HIST = gen.GenCfg(min_steps=5, max_steps=16, max_exchanges=2, max_holders=2, long_gaps=True)
